@@ -110,6 +110,22 @@ func (w *World) advance(r int, all bool) ([]sm.Entry, error) {
 	return out, nil
 }
 
+// Settle lets every replica apply the rest of the log and returns, per replica, what it then holds under the pattern.
+func (w *World) Settle(pattern string) ([][]kv.Pair, error) {
+	var out [][]kv.Pair
+	for r := range w.reps {
+		if _, err := w.advance(r, true); err != nil {
+			return nil, err
+		}
+		v, err := w.reps[r].Lookup(kv.QueryAll{Pattern: pattern})
+		if err != nil {
+			return nil, err
+		}
+		out = append(out, v.([]kv.Pair))
+	}
+	return out, nil
+}
+
 // install catches replica r up by a snapshot of the up-to-date replica, installed into the live state machine.
 func (w *World) install(r int) error {
 	ctx, err := w.fsm.PrepareSnapshot()
